@@ -6,6 +6,7 @@
 //	             numeric / date / text fields, missing values, several segments, deletions); searches go
 //	             through Reader.Search(TopNSearch...). The reference list is Reader.Search(AllMatches) in hit
 //	             order, each match with its sort value computed by a FRESH SortOrder (SortOrder.Compute).
+//	             After `case … multi c1#c2#c3` the same goes through bluge.MultiSearch over all the indexes.
 //	ref R stub : a synthetic match stream with arbitrary byte strings as sort values; searches go through
 //	             TopNSearch.Collector().Collect(stub searcher) — the real Collector() and the real collector.
 //
@@ -35,7 +36,7 @@ import (
 type h struct{ st *state }
 
 func (h) Rule() string {
-	return "cases are (a) in-memory indexes of 0..40 (and 1100..1400) documents in 1-3 segments with deletions, keyword/numeric/date/text fields drawn from 2-7 values each (heavy ties) and missing with probability 1/4, queried by match-all / term / boolean queries, and (b) synthetic match streams of 0..2100 matches with 1-3 arbitrary byte-string sort values (empty, 0x00, 0xff.., ties, missing); per reference list: (n, from) over {0,1,9,10,11,count-1,count,count+5}^2, sort orders of 1-3 keys mixing _score/text/numeric/date with every asc/desc and missing first/last combination, built fresh (custom or string form) or left at the request's default, from a SortOrder value shared between requests, or inside one re-used request; after/before chains of page sizes {1,2,3,5,9,10,11,count,count+1} in all three re-use modes. A case is an executed search; it is non-trivial when the reference list has at least 2 matches and n > 0; distinct by operation line"
+	return "cases are (a) in-memory indexes of 0..40 (and 1100..1400) documents in 1-3 segments with deletions, keyword/numeric/date/text fields drawn from 2-7 values each (heavy ties) and missing with probability 1/4, queried by match-all / term / boolean queries, (a') 2-3 such indexes of different sizes searched together through bluge.MultiSearch, and (b) synthetic match streams of 0..2100 matches with 1-3 arbitrary byte-string sort values (empty, 0x00, 0xff.., ties, missing); per reference list: (n, from) over {0,1,9,10,11,count-1,count,count+5}^2, sort orders of 1-3 keys mixing _score/text/numeric/date with every asc/desc and missing first/last combination, built fresh (custom or string form) or left at the request's default, from a SortOrder value shared between requests, or inside one re-used request; after/before chains of page sizes {1,2,3,5,9,10,11,count,count+1} in all three re-use modes. A case is an executed search; it is non-trivial when the reference list has at least 2 matches and n > 0; distinct by operation line"
 }
 
 // ---------------------------------------------------------------------------------- sort specs
@@ -100,6 +101,7 @@ func stringForm(ks []keySpec) ([]string, bool) {
 
 type docT struct {
 	id     string
+	idx    int               // which index of the case holds it
 	fields map[string]string // k,k2,u: text; n: float bits hex; d: nanos hex; t: words joined by _
 }
 
@@ -109,6 +111,7 @@ type refT struct {
 	spec     []keySpec
 	stubKeys [][][]byte // stub: per match (Number = index) the raw values, nil = missing
 	count    int
+	other    int // idx over several readers: matches that live in a reader other than the first
 }
 
 type reqT struct {
@@ -121,21 +124,21 @@ type chainT struct {
 }
 
 type state struct {
-	writer *bluge.Writer
-	reader *bluge.Reader
-	docs   map[string]*docT
-	refs   map[string]*refT
-	vars   map[string]search.SortOrder
-	reqs   map[string]*reqT
-	chain  *chainT
+	writers []*bluge.Writer
+	readers []*bluge.Reader // one: Reader.Search; several: bluge.MultiSearch over all of them
+	docs    map[string]*docT
+	refs    map[string]*refT
+	vars    map[string]search.SortOrder
+	reqs    map[string]*reqT
+	chain   *chainT
 }
 
 func (s *state) reset() {
-	if s.reader != nil {
-		_ = s.reader.Close()
+	for _, r := range s.readers {
+		_ = r.Close()
 	}
-	if s.writer != nil {
-		_ = s.writer.Close()
+	for _, w := range s.writers {
+		_ = w.Close()
 	}
 	*s = state{docs: map[string]*docT{}, refs: map[string]*refT{}, vars: map[string]search.SortOrder{}, reqs: map[string]*reqT{}}
 }
@@ -168,7 +171,7 @@ func (ss *stubSearcher) Next(ctx *search.Context) (*search.DocumentMatch, error)
 	return nil, nil
 }
 func (ss *stubSearcher) DocumentMatchPoolSize() int { return 1 }
-func (ss *stubSearcher) Close() error                { return nil }
+func (ss *stubSearcher) Close() error               { return nil }
 
 func buildSort(ref *refT, spec []keySpec) search.SortOrder {
 	so := make(search.SortOrder, 0, len(spec))
@@ -301,7 +304,7 @@ func (s *state) search(ref *refT, req *bluge.TopNSearch) ([]hit, error) {
 	if ref.kind == "stub" {
 		it, err = req.Collector().Collect(context.Background(), req.Aggregations(), &stubSearcher{n: ref.count})
 	} else {
-		it, err = s.reader.Search(context.Background(), req)
+		it, err = s.searchReaders(req)
 	}
 	if err != nil {
 		return nil, err
@@ -322,6 +325,14 @@ func (s *state) search(ref *refT, req *bluge.TopNSearch) ([]hit, error) {
 		out = append(out, x)
 	}
 	return out, nil
+}
+
+// one index: Reader.Search; several: bluge.MultiSearch (ONE collector over the searchers of all readers)
+func (s *state) searchReaders(req bluge.SearchRequest) (search.DocumentMatchIterator, error) {
+	if len(s.readers) == 1 {
+		return s.readers[0].Search(context.Background(), req)
+	}
+	return bluge.MultiSearch(context.Background(), req, s.readers...)
 }
 
 func kv(w []string) map[string]string {
@@ -398,8 +409,20 @@ func (hh h) Exec(line string, out func(string, string), st *hlib.Stats, work str
 	case "case":
 		s.reset()
 		res := "case"
+		if len(w) >= 4 && w[2] == "multi" {
+			// several in-memory indexes, searched together with bluge.MultiSearch
+			res = hlib.Catch(func() string {
+				for i, c := range strings.Split(w[3], "#") {
+					if r := s.buildIndex(c, i); r != "case" {
+						return r
+					}
+				}
+				return "case"
+			})
+			st.Count("case:multi")
+		}
 		if len(w) >= 4 && w[2] == "index" {
-			res = hlib.Catch(func() string { return s.buildIndex(w[3]) })
+			res = hlib.Catch(func() string { return s.buildIndex(w[3], 0) })
 		}
 		out(line, res)
 	case "ref":
@@ -486,6 +509,19 @@ func (s *state) account(st *hlib.Stats, op string, ref *refT, n int, res string)
 		st.Count("res:hits")
 	}
 	st.Count("src:" + ref.kind)
+	if len(s.readers) > 1 && ref.kind == "idx" {
+		st.Count("src:multisearch")
+		fieldKey := false
+		for _, k := range ref.spec {
+			if k.src != "score" {
+				fieldKey = true
+			}
+		}
+		if fieldKey && ref.other > 0 && res != "panic" && res != "err" && !strings.HasPrefix(res, "none") {
+			// a field-sorted top-N over several readers with matches outside the first reader
+			st.Count("multisearch-field-sort")
+		}
+	}
 	if n+0 > 10 {
 		st.Count("n>10")
 	}
@@ -566,13 +602,13 @@ func (s *state) execChain(w []string, out func(string, string), st *hlib.Stats) 
 // ---------------------------------------------------------------------------------- index and reference
 
 // corpus: batches separated by '|', entries by ';'; entry "dN/k=..,n=..,…" inserts, "!dN" deletes
-func (s *state) buildIndex(corpus string) string {
+func (s *state) buildIndex(corpus string, idx int) string {
 	cfg := bluge.InMemoryOnlyConfig()
 	w, err := bluge.OpenWriter(cfg)
 	if err != nil {
 		return "err"
 	}
-	s.writer = w
+	s.writers = append(s.writers, w)
 	if corpus != "." {
 		for _, bs := range strings.Split(corpus, "|") {
 			b := bluge.NewBatch()
@@ -586,7 +622,7 @@ func (s *state) buildIndex(corpus string) string {
 					continue
 				}
 				parts := strings.SplitN(e, "/", 2)
-				d := &docT{id: parts[0], fields: map[string]string{}}
+				d := &docT{id: parts[0], idx: idx, fields: map[string]string{}}
 				doc := bluge.NewDocument(d.id)
 				if len(parts) == 2 && parts[1] != "" {
 					for _, f := range strings.Split(parts[1], ",") {
@@ -619,7 +655,7 @@ func (s *state) buildIndex(corpus string) string {
 	if err != nil {
 		return "err"
 	}
-	s.reader = r
+	s.readers = append(s.readers, r)
 	return "case"
 }
 
@@ -690,7 +726,9 @@ func (s *state) execRef(w []string, line string, out func(string, string), st *h
 	}
 	var raws []string
 	res := hlib.Catch(func() string {
-		it, err := s.reader.Search(context.Background(), bluge.NewAllMatches(buildQuery(ref.q)))
+		// the complete match list in the order ONE collector sees it: AllMatches through the same entry point
+		// (for several readers: reader order, then document order; AllIterator numbers the hits)
+		it, err := s.searchReaders(bluge.NewAllMatches(buildQuery(ref.q)))
 		if err != nil {
 			return "err"
 		}
@@ -706,6 +744,11 @@ func (s *state) execRef(w []string, line string, out func(string, string), st *h
 				break
 			}
 			if fs := so.Fields(); len(fs) > 0 {
+				if len(s.readers) > 1 {
+					// a context of its own for every match: the reference sort value of a match is read
+					// from the reader the match came from, whatever the search context caches
+					sctx = search.NewSearchContext(0, 0)
+				}
 				if err := m.LoadDocumentValues(sctx, fs); err != nil {
 					return "err"
 				}
@@ -721,6 +764,9 @@ func (s *state) execRef(w []string, line string, out func(string, string), st *h
 			d := s.docs[id]
 			if d == nil {
 				d = &docT{fields: map[string]string{}}
+			}
+			if d.idx > 0 {
+				ref.other++
 			}
 			vs := make([]string, len(ref.spec))
 			for x, k := range ref.spec {
@@ -923,8 +969,13 @@ var nVals = []float64{-2.5, -1, 0, 1, 1.5, 3, 1e10}
 var dVals = []int64{-1000000000, 0, 1577836800000000000, 1577836800000000001}
 
 func (g *genT) corpus(count int) (string, int) {
+	return g.corpusAt(count, 0, r2perm(g.r, count))
+}
+
+// documents d<off>..d<off+count-1>; the unique field u takes perm[off+i] (perm may span several indexes,
+// so that their u values interleave)
+func (g *genT) corpusAt(count, off int, perm []int) (string, int) {
 	r := g.r
-	perm := r2perm(r, count)
 	nb := 1 + r.Intn(3)
 	batches := make([][]string, nb)
 	live := 0
@@ -937,7 +988,7 @@ func (g *genT) corpus(count int) (string, int) {
 		if !r.Chance(30) {
 			fs = append(fs, "k2="+k2Vals[r.Intn(len(k2Vals))])
 		}
-		fs = append(fs, fmt.Sprintf("u=u%03d", perm[i]))
+		fs = append(fs, fmt.Sprintf("u=u%03d", perm[off+i]))
 		if !r.Chance(25) {
 			fs = append(fs, fmt.Sprintf("n=%016x", math.Float64bits(nVals[r.Intn(len(nVals))])))
 		}
@@ -958,7 +1009,7 @@ func (g *genT) corpus(count int) (string, int) {
 			fs = append(fs, "t="+strings.Join(ws, "_"))
 		}
 		b := i * nb / count
-		id := fmt.Sprintf("d%d", i)
+		id := fmt.Sprintf("d%d", off+i)
 		batches[b] = append(batches[b], id+"/"+strings.Join(fs, ","))
 		ids = append(ids, id)
 		live++
@@ -973,7 +1024,7 @@ func (g *genT) corpus(count int) (string, int) {
 					}
 				}
 			}
-			if !already && i*nb/count > atoi(victim[1:])*nb/count {
+			if !already && i*nb/count > (atoi(victim[1:])-off)*nb/count {
 				batches[b] = append(batches[b], "!"+victim)
 				live--
 			}
@@ -1108,6 +1159,53 @@ func (h) Gen(r *hlib.Rand, tier string, scale int, emit func(string)) {
 			R := fmt.Sprintf("R%d", g.nref)
 			emit(fmt.Sprintf("ref %s idx q=%s s=%s", R, []string{"all", "bool:x:y:z"}[j%2], specString(sp)))
 			g.opsFor(R, count, sp, false)
+		}
+	}
+	// bluge.MultiSearch: 2-3 indexes of different sizes (one may be empty or hold no match), ONE collector over
+	// their concatenated match streams; equal, interleaving and missing keys across the indexes
+	nMulti := 8 * scale
+	if tier == "thorough" {
+		nMulti = 60 * scale
+	}
+	multiSizes := [][]int{{3, 5}, {7, 2, 4}, {12, 9}, {1, 11}, {0, 6}, {6, 0, 3}, {10, 10}, {30, 45}, {15, 4, 23}}
+	for c := 0; c < nMulti; c++ {
+		sizes := multiSizes[c%len(multiSizes)]
+		if c >= len(multiSizes) {
+			sizes = make([]int, 2+r.Intn(2))
+			for i := range sizes {
+				sizes[i] = r.Intn(25)
+			}
+		}
+		total := 0
+		for _, n := range sizes {
+			total += n
+		}
+		perm := r2perm(r, total)
+		var cs []string
+		off := 0
+		for _, n := range sizes {
+			corpus, _ := g.corpusAt(n, off, perm)
+			cs = append(cs, corpus)
+			off += n
+		}
+		emit(fmt.Sprintf("case m%d multi %s", c, strings.Join(cs, "#")))
+		for j := 0; j < 4; j++ {
+			g.nref++
+			R := fmt.Sprintf("R%d", g.nref)
+			var spec []keySpec
+			switch j {
+			case 0: // one field key, all four asc/desc x first/last combinations over the cases
+				spec = []keySpec{{src: []string{"k", "n", "d", "k2"}[c%4], desc: c&1 == 1, first: c&2 == 2}}
+			case 1: // distinguishing: field keys, unique key last (chains are judged)
+				spec = g.randSpec([]string{"k", "k2", "n", "d"}, 1+r.Intn(2), "u")
+			case 2: // heavy ties, no unique key
+				spec = g.randSpec([]string{"k", "k2", "n", "d", "score"}, 1+r.Intn(3), "")
+			default:
+				spec = g.randSpec(srcs, 1+r.Intn(3), "")
+			}
+			q := []string{"all", "all", "term:t:x", "bool:x:y"}[r.Intn(4)]
+			emit(fmt.Sprintf("ref %s idx q=%s s=%s", R, q, specString(spec)))
+			g.opsFor(R, total, spec, j == 1 && c < 4)
 		}
 	}
 	stubCounts := []int{0, 1, 2, 3, 9, 10, 11, 12, 20, 50, 150, 300, 1030, 2100}
